@@ -148,6 +148,16 @@ namespace PugiXmlExtensions
 #endif
 	}
 
+	/// <summary>
+	/// Returns `true` when the node can be opened as array or object: an element whose content does not start with a text value
+	/// (element without children is an empty array/object).
+	/// </summary>
+	inline bool IsContainerNode(const pugi::xml_node& node)
+	{
+		const auto firstChild = node.first_child();
+		return node.type() == pugi::node_element && (firstChild.empty() || firstChild.type() == pugi::node_element);
+	}
+
 	inline void HandleMismatchedTypesPolicy(MismatchedTypesPolicy mismatchedTypesPolicy)
 	{
 		if (mismatchedTypesPolicy == MismatchedTypesPolicy::ThrowError)
@@ -227,7 +237,7 @@ public:
 		{
 			if (auto xmlNode = LoadNextItem())
 			{
-				if (xmlNode.first_child().type() == pugi::node_element)
+				if (PugiXmlExtensions::IsContainerNode(xmlNode))
 				{
 					return std::make_optional<PugiXmlArrayScope<TMode>>(xmlNode, TArchiveScope<TMode>::GetContext());
 				}
@@ -248,7 +258,7 @@ public:
 		{
 			if (auto xmlNode = LoadNextItem())
 			{
-				if (xmlNode.first_child().type() == pugi::node_element)
+				if (PugiXmlExtensions::IsContainerNode(xmlNode))
 				{
 					return std::make_optional<PugiXmlObjectScope<TMode>>(xmlNode, TArchiveScope<TMode>::GetContext());
 				}
@@ -455,7 +465,7 @@ public:
 		{
 			if (auto child = PugiXmlExtensions::GetChild(mNode, std::forward<TKey>(key)))
 			{
-				if (child.first_child().type() == pugi::node_element)
+				if (PugiXmlExtensions::IsContainerNode(child))
 				{
 					return std::make_optional<PugiXmlObjectScope<TMode>>(child, TArchiveScope<TMode>::GetContext());
 				}
@@ -477,7 +487,7 @@ public:
 		{
 			if (auto node = PugiXmlExtensions::GetChild(mNode, std::forward<TKey>(key)))
 			{
-				if (node.first_child().type() == pugi::node_element)
+				if (PugiXmlExtensions::IsContainerNode(node))
 				{
 					return std::make_optional<PugiXmlArrayScope<TMode>>(node, TArchiveScope<TMode>::GetContext());
 				}
